@@ -134,7 +134,108 @@ def strategy(tier):
 START_STATES = ["absent", "stale", "garbage", "own", "live-other"]
 
 
+REAL_HISTORIES = [["hup"], ["hup", "hup"], ["hup", "hup", "hup"], ["usr2", "term-old"], ["hup", "usr2", "term-new", "hup"], []]
+
+
+def run_real(case):
+    """the arbiter's call sites (start, reload, promotion, halt) on a real master: after every step the configured pid file exists,
+    holds the pid of the running master and makes a second instance refuse; after TERM it is gone"""
+    import signal
+    import time
+    from vlib import renv
+    import gunicorn.pidfile as pf
+    srv = renv.Server(kind="sync", workers=1, bind="unix", graceful=2, timeout=30)
+    vio = []
+
+    def V(clause, sig, observed=None, expected=None):
+        vio.append(Violation(clause, "C17/real:" + sig, observed={"detail": observed, "case": case, "log_tail": srv.logtext()[-800:]},
+                             expected=expected))
+
+    def read(path):
+        try:
+            return open(path).read()
+        except OSError:
+            return None
+
+    def check(master, label):
+        cur = None
+        for _ in range(40):
+            cur = read(srv.pidfile)
+            if cur == "%d\n" % master:
+                break
+            time.sleep(0.05)
+        if cur != "%d\n" % master:
+            V("names-running-master", "pidfile-does-not-name-the-master:" + label, {"content": cur, "master": master}, "%d" % master)
+            return
+        try:
+            pf.Pidfile(srv.pidfile).create(os.getpid())
+            V("exclusive", "second-instance-not-refused:" + label, {"content": read(srv.pidfile)}, "RuntimeError: Already running")
+        except RuntimeError:
+            pass
+
+    try:
+        if not srv.wait_ready():
+            return Outcome([], False, ["engine:R", "inconclusive:not-ready"])
+        master = srv.pid
+        check(master, "start")
+        for step in case["history"]:
+            if vio:
+                break
+            if step == "hup":
+                before = srv.workers(master)
+                os.kill(master, signal.SIGHUP)
+                t0 = time.time()
+                while time.time() - t0 < 8 and (set(srv.workers(master)) & set(before) or not srv.workers(master)):
+                    time.sleep(0.05)
+                time.sleep(0.2)
+                check(master, "after-hup")
+            elif step == "usr2":
+                os.kill(master, signal.SIGUSR2)
+                t0 = time.time()
+                new = None
+                while time.time() - t0 < 10:
+                    c = read(srv.pidfile + ".2")
+                    if c and c.strip().isdigit() and renv.children(int(c)):
+                        new = int(c)
+                        break
+                    time.sleep(0.05)
+                if not new:
+                    V("upgrade", "no-new-master", None, "pidfile.2")
+                    break
+                check(master, "during-upgrade")
+            elif step == "term-old":
+                os.kill(master, signal.SIGTERM)
+                srv.wait_exit(8)
+                master = new
+                t0 = time.time()
+                while time.time() - t0 < 5 and read(srv.pidfile) != "%d\n" % master:
+                    time.sleep(0.05)
+                check(master, "after-promotion")
+            elif step == "term-new":
+                os.kill(new, signal.SIGTERM)
+                t0 = time.time()
+                while time.time() - t0 < 8 and renv.alive(new):
+                    time.sleep(0.05)
+                time.sleep(0.3)
+                check(master, "after-rollback")
+        if not vio:
+            os.kill(master, signal.SIGTERM)
+            t0 = time.time()
+            while time.time() - t0 < 8 and renv.alive(master):
+                time.sleep(0.05)
+            time.sleep(0.2)
+            if read(srv.pidfile) is not None:
+                V("removed-at-exit", "pidfile-left-after-term", {"content": read(srv.pidfile)}, "removed")
+        return Outcome(vio, True, ["engine:R", "history:" + "+".join(case["history"] or ["none"])], key="R|" + "+".join(case["history"]),
+                       sample={"case": case})
+    finally:
+        srv.cleanup()
+
+
 def extra_cases(tier, seed, shard, nshards):
+    for i, h in enumerate(REAL_HISTORIES):
+        if (i + seed) % nshards == shard:
+            yield {"kind": "real", "history": h}
     n = 0
     for op in ("create", "rename"):
         for start in START_STATES:
@@ -172,6 +273,8 @@ def listing(d):
 
 
 def run_case(case):
+    if case["kind"] == "real":
+        return run_real(case)
     import gunicorn.pidfile as pf
     g = G()
     d = tempfile.mkdtemp(dir=g["dir"])
